@@ -27,12 +27,12 @@ class HarnessError(Exception):
     """The simulator itself failed (never a property violation)."""
 
 
-class LibraryHang(Exception):
+class LibraryHang(BaseException):
     """A simulated thread burnt wall-clock time inside the library without ever blocking or reading the
     clock (an endless or super-linear loop): reported as a violation clause 'hang', not as a harness error."""
 
     def __init__(self, thread, site):
-        Exception.__init__(self, '%s hangs in %s' % (thread, site))
+        BaseException.__init__(self, '%s hangs in %s' % (thread, site))
         self.thread = thread
         self.site = site
 
@@ -74,6 +74,8 @@ class Sim:
         self.spin_events = []       # (thread name, t_ns)
         self.livelocked = []        # thread names killed by the spin guard
         self.hung = []              # (thread name, library site) killed by the wall-clock watchdog
+        self.eager_wake = 0.0       # probability that a put() runs the woken thread at once (waker pre-empted after put)
+        self.eager_wakes = 0
         self.events_run = 0
         self.clock_reads = 0
         self._h = hashlib.sha256()
@@ -318,6 +320,8 @@ class SimQueue:
         self.sim = CURRENT
         self.items = deque()
         self.waiters = []
+        self.maxsize = maxsize
+        self.put_waiters = []
 
     def qsize(self):
         return len(self.items)
@@ -325,14 +329,48 @@ class SimQueue:
     def empty(self):
         return not self.items
 
+    def full(self):
+        return self.maxsize > 0 and len(self.items) >= self.maxsize
+
     def put(self, item, block=True, timeout=None):
         sim = self.sim
+        while self.maxsize > 0 and len(self.items) >= self.maxsize:
+            # a bounded queue that is full: the caller blocks like with queue.Queue
+            if not block:
+                raise _real_queue.Full
+            th = sim.current
+            if th is None:
+                # the thread feeding received frames in would block here for good (nobody else can run meanwhile in this model)
+                raise LibraryHang('receiving/application context', 'Queue.put on a full queue (maxsize=%d)' % self.maxsize)
+            expired = {'v': False}
+            if timeout is not None:
+                def fire_put(th=th):
+                    if th in self.put_waiters:
+                        self.put_waiters.remove(th)
+                        expired['v'] = True
+                        sim._resume(th)
+                sim.after(int(timeout * 1e9) + 1 + sim.wake_latency(), fire_put, 'q-put-timeout')
+            self.put_waiters.append(th)
+            sim._yield('queue.put')
+            if expired['v']:
+                raise _real_queue.Full
         self.items.append(item)
         while self.waiters:
             w = self.waiters.pop(0)
             if w.state == 'waiting':
                 w.state = 'waking'
-                sim.after(sim.wake_latency(), (lambda w=w: sim._resume(w.th) if w.state == 'waking' else None), 'q-wake')
+                if sim.eager_wake and sim.rng.random() < sim.eager_wake:
+                    # schedule fault: the woken thread runs at once and the waker is pre-empted right after its put()
+                    sim.eager_wakes += 1
+                    cur = sim.current
+                    if cur is None:
+                        sim._resume(w.th)
+                    else:
+                        sim.after(0, (lambda w=w: sim._resume(w.th) if w.state == 'waking' else None), 'q-wake-eager')
+                        sim.after(0, (lambda cur=cur: sim._resume(cur)), 'waker-resume')
+                        sim._yield('preempted-after-put')
+                else:
+                    sim.after(sim.wake_latency(), (lambda w=w: sim._resume(w.th) if w.state == 'waking' else None), 'q-wake')
                 break
 
     def put_nowait(self, item):
@@ -341,7 +379,7 @@ class SimQueue:
     def get(self, block=True, timeout=None):
         sim = self.sim
         if self.items:
-            return self.items.popleft()
+            return self._take()
         if not block:
             raise _real_queue.Empty
         if timeout is not None and timeout < 0:
@@ -372,10 +410,17 @@ class SimQueue:
                 st['w'] = None
                 w.state = 'done'
             if self.items:
-                return self.items.popleft()
+                return self._take()
             if st['expired']:
                 raise _real_queue.Empty
             # woken by a put whose item someone else took: wait again
+
+    def _take(self):
+        item = self.items.popleft()
+        if self.put_waiters:
+            th = self.put_waiters.pop(0)
+            self.sim.after(self.sim.wake_latency(), (lambda th=th: self.sim._resume(th)), 'q-put-wake')
+        return item
 
     def get_nowait(self):
         return self.get(False)
